@@ -47,6 +47,18 @@ func init() {
 		},
 	})
 	core.Register(&core.Property{
+		ID:         "C06",
+		Decided:    "Decides that the nesting depth is threaded and bounded on every decoder edge, that every input-driven recursion cycle reachable from the decoding/utility entry points passes a depth bound or a memo, that no kind-restricted reflect method is called under a kind test that makes it panic, and that no explicit panic is reachable from those entry points; it does not decide termination or absence of every run-time panic.",
+		NotCovered: "termination of every scanner loop, a reader that returns (0, nil) forever, index/nil panics guarded only by Go's own checks, sentinel look-ahead reads (planned C06.R5).",
+		Rules: []*core.Rule{
+			{ID: "C06.R1", Title: "every function with a depth parameter passes depth or depth+k (to a guarded callee) on every call that takes one; every depth++ is followed by `if depth > maxDecodeNestingDepth` with an error exit; container decoders increment; package json starts at 0", Covers: "million-deep nesting gives an error, not a stack overflow", Min: 90, Run: c06r1},
+			{ID: "C06.R2", Title: "every cycle of the static-callee graph among functions carrying []byte/[]rune/*Stream/*runtime.Type, reachable (CHA) from the decoding and utility entry points, passes a function with a depth comparison or a memo lookup with early return", Covers: "no input-proportional recursion (fatal stack exhaustion)", Min: 4, Run: c06r2},
+			{ID: "C06.R3", Title: "no kind-restricted reflect.Type/Value method is called on the switched value inside a `case reflect.K` clause all of whose kinds make it panic", Covers: "Path.Get / assignment helpers never panic on a supported kind", Min: 10, Run: c06r3},
+			{ID: "C06.R3b", Title: "a reflect.Value that can be the zero Value for ordinary data (x.Elem(), reflect.ValueOf(<interface>), MapIndex) is never used, locally or in the module function it is passed to (all implementations for interface calls), as receiver of a method that panics on the zero Value unless an IsValid test protects the use", Covers: "Path.Get and the assignment helpers return an error, not a panic, for nil pointers / nil interfaces inside the source value", Min: 10, Run: c06r3b},
+			{ID: "C06.R4", Title: "no ssa.Panic instruction of the module (outside init) is in a function CHA-reachable from the decoding/utility entry points", Covers: "no explicit panic on any input", Min: 5, Run: c06r4},
+		},
+	})
+	core.Register(&core.Property{
 		ID:         "C17",
 		Decided:    "Decides that the encoder's escape table, 8-byte scan mask and slow-path switch agree with each other per variant, that the UTF-8 lead-byte table matches the definition, and that all decoder escape readers accept the same letters and test \\u digits; it does not decide the emitted or decoded string for any input.",
 		NotCovered: "position-dependent behaviour of the 8-byte scan, surrogate-pair arithmetic, equality with encoding/json's decoded string.",
